@@ -1,3 +1,4 @@
+pub mod chainpool;
 pub mod chainutil;
 pub mod engine;
 pub mod world;
@@ -9,8 +10,12 @@ pub mod props {
     pub mod c07;
     pub mod c08;
     pub mod c09;
+    pub mod c10;
+    pub mod c11;
+    pub mod unionm;
     pub mod c12;
     pub mod c13;
+    pub mod c14;
     pub mod c16;
     pub mod c17;
     pub mod c18;
